@@ -19,6 +19,7 @@ if REPO != "/repo" and REPO not in sys.path:
 def det_env(env=None):
     env = dict(os.environ if env is None else env)
     env.setdefault("OMP_NUM_THREADS", "1")
+    env.setdefault("OMP_WAIT_POLICY", "passive")  # checks that raise the team size share the cores with 15 other workers
     env.setdefault("OPENBLAS_NUM_THREADS", "1")
     env.setdefault("MKL_NUM_THREADS", "1")
     env.setdefault("NUMBA_NUM_THREADS", "1")
